@@ -24,7 +24,7 @@ RULE = (
     "pair; distinct = (operation, parameters, input hash, seed); non-trivial = the operation returned in both runs"
 )
 ASSUMPTIONS = ["thorough tier repeats the CLI steps as real subprocesses under two PYTHONHASHSEED values", "line-granular injection uses sys.monitoring LINE events on code objects whose file lies under the tree under test"]
-REQUIRED = {"training_pairs_user_subclass": {"quick": 8, "thorough": 150}, "pairs_with_positional_arguments": {"quick": 10, "thorough": 200}, "dbal_kernel_pairs_on_the_callers_arrays": {"quick": 100, "thorough": 1000}, "pairs_compared": {"quick": 400, "thorough": 8000}, "global_state_checks": {"quick": 400, "thorough": 8000}, "injected_global_draws": {"quick": 2000, "thorough": 50000}, "training_pairs": {"quick": 16, "thorough": 300}, "training_pairs_same_model": {"quick": 16, "thorough": 300}, "training_with_non_default_switches": {"quick": 6, "thorough": 100}, "vi_training_pairs": {"quick": 40, "thorough": 600}, "reused_scorer_pairs": {"quick": 30, "thorough": 600}, "dbal_pairs_many_samples": {"quick": 12, "thorough": 48}, "second_runs_on_an_object_with_a_past": {"quick": 60, "thorough": 1200}, "grid_model_training_pairs": {"quick": 2, "thorough": 16}, "cli_pairs": {"quick": 24, "thorough": 400}, "cli_subprocess_pairs": {"quick": 2, "thorough": 16}}
+REQUIRED = {"generators_in_equal_state_made_by_different_routes": {"quick": 300, "thorough": 4000}, "training_pairs_user_subclass": {"quick": 8, "thorough": 150}, "pairs_with_positional_arguments": {"quick": 10, "thorough": 200}, "dbal_kernel_pairs_on_the_callers_arrays": {"quick": 100, "thorough": 1000}, "pairs_compared": {"quick": 400, "thorough": 8000}, "global_state_checks": {"quick": 400, "thorough": 8000}, "injected_global_draws": {"quick": 2000, "thorough": 50000}, "training_pairs": {"quick": 16, "thorough": 300}, "training_pairs_same_model": {"quick": 16, "thorough": 300}, "training_with_non_default_switches": {"quick": 6, "thorough": 100}, "vi_training_pairs": {"quick": 40, "thorough": 600}, "reused_scorer_pairs": {"quick": 30, "thorough": 600}, "dbal_pairs_many_samples": {"quick": 12, "thorough": 48}, "second_runs_on_an_object_with_a_past": {"quick": 60, "thorough": 1200}, "grid_model_training_pairs": {"quick": 2, "thorough": 16}, "cli_pairs": {"quick": 24, "thorough": 400}, "cli_subprocess_pairs": {"quick": 2, "thorough": 16}}
 N_OPS = {"quick": 640, "thorough": 12800}
 TOOL = 4
 
@@ -204,9 +204,10 @@ def run_shard(rec, tier, seed, shard, nshards):
                 except Exception:
                     pass
                 rec.count("second_runs_on_an_object_with_a_past")
-            g = np.random.default_rng(s0)
-            if adv:
-                g.random(adv)
+            # the two runs get generators in the same state that were made by different routes (built, deep-copied,
+            # unpickled, restored from a checkpointed state, parent of spawned children)
+            g = kit.twin_rng(s0, adv)
+            rec.count("generators_in_equal_state_made_by_different_routes")
             return f(screen, g)
 
         fp = (lambda r: [screen_fp(r[0]), screen_fp(r[1])]) if kind == "holdout" else screen_fp
@@ -236,8 +237,8 @@ def run_shard(rec, tier, seed, shard, nshards):
         budget = int(rng.integers(5, 60))  # below C(T,3): sub-sampling branch
         plates = {int(p.plate_id): p for p in screen.plates if not p.is_observed}
         w = {"n_thetas": T, "budget": budget, "generator_seed": s0}
-        pair(rec, "RandomScorer", "", lambda: RandomScorer().score(plates, cdm, holder, np.random.default_rng(s0), False), lambda r: sorted((int(k), float(v)) for k, v in r.items()), w, case_key=("rand", s0, len(plates)))
-        pair(rec, "GaussianDBALScorer", "max_triples=%d" % budget, lambda: G.GaussianDBALScorer(max_chunk=int(2), max_triples=budget).score(plates, cdm, holder, np.random.default_rng(s0), False), lambda r: sorted((int(k), float(v).hex()) for k, v in r.items()), w, case_key=("dbal", s0, T, budget))
+        pair(rec, "RandomScorer", "", lambda: RandomScorer().score(plates, cdm, holder, kit.twin_rng(s0), False), lambda r: sorted((int(k), float(v)) for k, v in r.items()), w, case_key=("rand", s0, len(plates)))
+        pair(rec, "GaussianDBALScorer", "max_triples=%d" % budget, lambda: G.GaussianDBALScorer(max_chunk=int(2), max_triples=budget).score(plates, cdm, holder, kit.twin_rng(s0), False), lambda r: sorted((int(k), float(v).hex()) for k, v in r.items()), w, case_key=("dbal", s0, T, budget))
         nch = int(rng.integers(1, 4))
         cidx = int(rng.integers(nch))
         # a scorer object with a past: in the second run the same kind of object has already scored once with another
@@ -248,20 +249,20 @@ def run_shard(rec, tier, seed, shard, nshards):
                 sc = make()
                 if st["n"] == 2:
                     sc.score(plates, cdm, holder, np.random.default_rng(s0 + 17), False)
-                return sc.score(plates, cdm, holder, np.random.default_rng(s0), False)
+                return sc.score(plates, cdm, holder, kit.twin_rng(s0), False)
 
             return run
 
         pair(rec, "GaussianDBALScorer-reused-object", "max_triples=%d" % budget, reused(lambda: G.GaussianDBALScorer(max_chunk=int(2), max_triples=budget), {}), lambda r: sorted((int(k), float(v).hex()) for k, v in r.items()), w, case_key=("dbal-reused", s0, T, budget), count_as="reused_scorer_pairs")
         pair(rec, "RandomScorer-reused-object", "", reused(lambda: RandomScorer(), {}), lambda r: sorted((int(k), float(v)) for k, v in r.items()), w, case_key=("rand-reused", s0, len(plates)), count_as="reused_scorer_pairs")
-        pair(rec, "score_chunk", "RandomScorer", lambda: score_chunk(RandomScorer(), holder, screen, cdm, rng=np.random.default_rng(s0), n_chunks=nch, chunk_index=cidx), lambda h: [kit.array_hash(h.scores), kit.array_hash(h.plate_ids)], w, case_key=("score_chunk", s0, nch, cidx))
-        pair(rec, "score_chunk", "RandomScorer, arguments by position", lambda: score_chunk(RandomScorer(), holder, screen, cdm, np.random.default_rng(s0)), lambda h: [kit.array_hash(h.scores), kit.array_hash(h.plate_ids)], w, case_key=("score_chunk-positional", s0), count_as="pairs_with_positional_arguments")
-        pair(rec, "score_chunk", "GaussianDBALScorer", lambda: score_chunk(G.GaussianDBALScorer(max_triples=budget), holder, screen, cdm, rng=np.random.default_rng(s0), n_chunks=nch, chunk_index=cidx), lambda h: [kit.array_hash(h.scores), kit.array_hash(h.plate_ids)], w, case_key=("score_chunk-dbal", s0, nch, cidx, budget))
+        pair(rec, "score_chunk", "RandomScorer", lambda: score_chunk(RandomScorer(), holder, screen, cdm, rng=kit.twin_rng(s0), n_chunks=nch, chunk_index=cidx), lambda h: [kit.array_hash(h.scores), kit.array_hash(h.plate_ids)], w, case_key=("score_chunk", s0, nch, cidx))
+        pair(rec, "score_chunk", "RandomScorer, arguments by position", lambda: score_chunk(RandomScorer(), holder, screen, cdm, kit.twin_rng(s0)), lambda h: [kit.array_hash(h.scores), kit.array_hash(h.plate_ids)], w, case_key=("score_chunk-positional", s0), count_as="pairs_with_positional_arguments")
+        pair(rec, "score_chunk", "GaussianDBALScorer", lambda: score_chunk(G.GaussianDBALScorer(max_triples=budget), holder, screen, cdm, rng=kit.twin_rng(s0), n_chunks=nch, chunk_index=cidx), lambda h: [kit.array_hash(h.scores), kit.array_hash(h.plate_ids)], w, case_key=("score_chunk-dbal", s0, nch, cidx, budget))
         allh = ChunkedScoresHolder(len(plates))
         for pid in plates:
             allh.add_score(pid, float(rng.integers(0, 3)))
         k = int(rng.integers(1, 3))
-        pair(rec, "select_next_plate", "KPerSamplePlatePolicy(k=%d)" % k, lambda: select_next_plate(allh, screen, KPerSamplePlatePolicy(k), batch_plate_ids=[], rng=np.random.default_rng(s0)), lambda r: None if r is None else int(r.plate_id), w, case_key=("select", s0, k, kit.array_hash(allh.scores)))
+        pair(rec, "select_next_plate", "KPerSamplePlatePolicy(k=%d)" % k, lambda: select_next_plate(allh, screen, KPerSamplePlatePolicy(k), batch_plate_ids=[], rng=kit.twin_rng(s0)), lambda r: None if r is None else int(r.plate_id), w, case_key=("select", s0, k, kit.array_hash(allh.scores)))
 
     # ------------------------------------------------ DBAL triple sub-sampling in the production regime: thousands of
     #                                                  posterior samples, C(n,3) beyond 2**31 and 2**32
@@ -274,7 +275,7 @@ def run_shard(rec, tier, seed, shard, nshards):
         np.fill_diagonal(dd, 0.0)
         s0 = int(rng.integers(0, 2**31))
         bud = int(rng.choice([50, 300, 1000]))
-        pair(rec, "DBAL-subsampling-many-samples", "n_thetas=%d budget=%d" % (n_big, bud), lambda: G.dbal_fast_gauss_scoring_vectorized(preds, var, dd, np.random.default_rng(s0), max_combos=bud), lambda r: [float(x).hex() for x in np.asarray(r).ravel()], {"n_thetas": n_big, "budget": bud, "seed": s0}, inj_every=3, case_key=("dbal-big", n_big, bud, s0), count_as="dbal_pairs_many_samples")
+        pair(rec, "DBAL-subsampling-many-samples", "n_thetas=%d budget=%d" % (n_big, bud), lambda: G.dbal_fast_gauss_scoring_vectorized(preds, var, dd, kit.twin_rng(s0), max_combos=bud), lambda r: [float(x).hex() for x in np.asarray(r).ravel()], {"n_thetas": n_big, "budget": bud, "seed": s0}, inj_every=3, case_key=("dbal-big", n_big, bud, s0), count_as="dbal_pairs_many_samples")
 
     # ------------------------------------------------ the three documented DBAL entry points called directly, the
     #                                                  caller keeps its arrays (plates of unequal sizes, NaN padding)
@@ -301,9 +302,9 @@ def run_shard(rec, tier, seed, shard, nshards):
         before = [kit.raw_bytes(x) for x in held]
         fpk = lambda r: [float(x).hex() for x in np.asarray(r).ravel()]
         wk = {"sizes": sizes_, "n_thetas": T_, "seed": s0}
-        pair(rec, "DBAL-kernel", "vectorized, NaN-padded variances", lambda: G.dbal_fast_gauss_scoring_vectorized(preds, var, dd, np.random.default_rng(s0), max_combos=5000), fpk, wk, case_key=("dbal-kernel-v", s0, tuple(sizes_)), count_as="dbal_kernel_pairs_on_the_callers_arrays")
-        pair(rec, "DBAL-kernel", "heteroscedastic", lambda: G.dbal_fast_gaussian_scoring_heteroscedastic(preds_l, var_l, dd, np.random.default_rng(s0), max_combos=5000), fpk, wk, case_key=("dbal-kernel-het", s0, tuple(sizes_)), count_as="dbal_kernel_pairs_on_the_callers_arrays")
-        pair(rec, "DBAL-kernel", "homoscedastic", lambda: G.dbal_fast_gaussian_scoring_homoscedastic(preds_l, homo, dd, np.random.default_rng(s0), max_combos=5000), fpk, wk, case_key=("dbal-kernel-hom", s0, tuple(sizes_)), count_as="dbal_kernel_pairs_on_the_callers_arrays")
+        pair(rec, "DBAL-kernel", "vectorized, NaN-padded variances", lambda: G.dbal_fast_gauss_scoring_vectorized(preds, var, dd, kit.twin_rng(s0), max_combos=5000), fpk, wk, case_key=("dbal-kernel-v", s0, tuple(sizes_)), count_as="dbal_kernel_pairs_on_the_callers_arrays")
+        pair(rec, "DBAL-kernel", "heteroscedastic", lambda: G.dbal_fast_gaussian_scoring_heteroscedastic(preds_l, var_l, dd, kit.twin_rng(s0), max_combos=5000), fpk, wk, case_key=("dbal-kernel-het", s0, tuple(sizes_)), count_as="dbal_kernel_pairs_on_the_callers_arrays")
+        pair(rec, "DBAL-kernel", "homoscedastic", lambda: G.dbal_fast_gaussian_scoring_homoscedastic(preds_l, homo, dd, kit.twin_rng(s0), max_combos=5000), fpk, wk, case_key=("dbal-kernel-hom", s0, tuple(sizes_)), count_as="dbal_kernel_pairs_on_the_callers_arrays")
         rec.count("oracle_evals")
         rec.check(before == [kit.raw_bytes(x) for x in held], "C18/DBAL-kernel/changes-its-inputs", "a DBAL entry point wrote into the arrays it was given: the caller's next call no longer sees the inputs it passed before", wk)
 
